@@ -220,6 +220,26 @@ pub fn run_case(sub: u64, _scratch: &Path, acc: &mut Acc) {
                 acc.probes.inc("NUL-first-byte-of-a-read");
             }
         }
+        // a consumer that answers the binary notice with "stop": nothing is delivered after it,
+        // in particular no line holding the binary byte
+        if case.cfg.bin != Bin::None {
+            let plain = run(&case, knobs, strat, None, None);
+            if let Some(kb) = plain.evs.iter().position(|e| matches!(e, Ev::Binary(_))) {
+                let o = run(&case, knobs, strat, Some((kb, Answer::Stop)), None);
+                acc.evals += 1;
+                acc.faults.inc("consumer-stops-at-the-binary-notice");
+                let after: Vec<&Ev> = o.evs.iter().skip(kb + 1).filter(|e| !e.is_finish()).collect();
+                if !after.is_empty() && acc.violations.iter().filter(|v| v.class.starts_with("delivered-after-binary-stop")).count() < 10 {
+                    acc.violations.push(Violation {
+                        property: "C14".into(),
+                        class: format!("delivered-after-binary-stop:{}", strat.kind()),
+                        summary: format!("{}: the consumer answered stop to the binary notice, yet {} more results followed: [{}]", strat.name(), after.len(), brief(&o.evs)),
+                        subseed: sub,
+                        replay: json!({"engine": "iosim", "kind": "c14", "case": case.to_json(), "knobs": knobs_json(knobs), "strategy": strat.to_json(), "nul_placement": placed, "stop_at_binary_notice": true}),
+                    });
+                }
+            }
+        }
         if let Some((class, summary)) = check(&case, knobs, strat, &nobin) {
             if acc.violations.iter().filter(|v| v.class == class).count() < 20 {
                 acc.violations.push(Violation {
@@ -250,5 +270,11 @@ pub fn replay(v: &Value) -> Option<(String, String)> {
     let nobin = run(&nb, &Knobs::default(), &Strategy::Slice, None, None);
     let o = run(&case, &knobs, &strat, None, None);
     println!("replay: events {}", brief(&o.evs));
+    if v["stop_at_binary_notice"].as_bool() == Some(true) {
+        let kb = o.evs.iter().position(|e| matches!(e, Ev::Binary(_)))?;
+        let o2 = run(&case, &knobs, &strat, Some((kb, Answer::Stop)), None);
+        let after = o2.evs.iter().skip(kb + 1).filter(|e| !e.is_finish()).count();
+        return if after > 0 { Some((format!("delivered-after-binary-stop:{}", strat.kind()), format!("{after} results after the stop: [{}]", brief(&o2.evs)))) } else { None };
+    }
     check(&case, &knobs, &strat, &nobin)
 }
